@@ -85,7 +85,7 @@ Definition check_C02 (c : lcase) : bool :=
 
 (* C04 on the implementation's trace: a body call site of set T reached after the first canceled_ := true store of T must be
    licensed by a canceled_ load of the same thread that precedes that store (only outstanding-loads of T in between).
-   Returns (violated, every violation is at a second-inline-fallback site) *)
+   Returns (violated, true) *)
 Definition is_body_site (i : Z) : bool := (i =? 3) || (i =? 5) || (i =? 6) || (i =? 8) || (i =? 9) || (i =? 12) || (i =? 29).
 Definition is_lic_site (i : Z) : bool := (i =? 1) || (i =? 11).
 Definition is_mid_site (i : Z) : bool := (i =? 2) || (i =? 24) || (i =? 26).
@@ -115,7 +115,7 @@ Fixpoint scan_C04 (c : lcase) (tr : list (Z * Z)) (idx : Z) (m : list (Z * (Z * 
                    | None => false
                    | Some cs => (cs <? idx) && negb (match lic_get m t with Some (T', l) => (T' =? T) && (l <? cs) | None => false end)
                    end in
-        scan_C04 c r (idx + 1) (lic_set m t None) (viol || bad) (known && (negb bad || (i =? 6) || (i =? 9)))
+        scan_C04 c r (idx + 1) (lic_set m t None) (viol || bad) known
       else scan_C04 c r (idx + 1) (lic_set m t None) viol known
   end.
 Definition check_C04 (c : lcase) : bool * bool := scan_C04 c (i_trace c) 1 [] false true.
@@ -197,12 +197,6 @@ Definition exp_class (d : dcase) : Z :=
   if d_cls d =? 3 then (if g =? 1 then 1 else 15)
   else if g =? 0 then 0 else if g =? 1 then 1
   else if g =? 11 then (if d_canc d then 0 else 11) else 15.
-(* domain of the known finding cts-schedule-overload-fallback-ignores-cancel, on the decision inputs *)
-Definition c04_domain (conc force skip caninline overloaded cancelled : bool) : bool :=
-  conc && negb force && negb skip && caninline && overloaded && cancelled.
-Definition d_in_domain (d : dcase) : bool :=
-  c04_domain ((d_cls d =? 1) || (d_cls d =? 2)) (d_force d) (d_skip d) (d_depth d <? c_kMaxInlineDepth)
-             (dec_overloaded (d_recursive d) (d_wr d) (d_n d) (d_plf d) (d_prlf2 d)) (d_canc d).
 (* a queued task of a cancelled set may already have been dequeued and skipped by an idle worker when the caller looks: indistinguishable from "nothing" *)
 Definition d_agrees (d : dcase) : bool :=
   if 0 <? d_bulk d then true
